@@ -399,5 +399,170 @@ func ruleFinalize(c *Ctx) *RuleResult {
 	}
 	checkPool("(*ClonePool).ExtractAllMarkedFinalize", fin, true)
 	checkPool("(*ClonePool).ExtractAllMarkedRelease", rel, false)
+	// (g) marking happens where the metatable is set: (*Runtime).SetRawMetatable is
+	// the only place that gives a table or userdata a non-nil metatable and it marks
+	// the value for finalisation/release; nothing Lua can call sets one around it
+	srm := p.Func("runtime", "(*Runtime).SetRawMetatable")
+	tsm := p.Func("runtime", "(*Table).SetMetatable")
+	usm := p.Func("runtime", "(*UserData).SetMetatable")
+	addFin := p.Func("runtime", "(*Runtime).addFinalizer")
+	if srm == nil || tsm == nil || usm == nil || addFin == nil {
+		r.broken("anchor unresolved: runtime.(*Runtime).SetRawMetatable / addFinalizer / (*Table).SetMetatable / (*UserData).SetMetatable")
+		return r
+	}
+	nSetters := 0
+	for _, f := range p.ModFuncs() {
+		if !luaReachablePkg(relPkg(funcPkgPath(f))) || f == srm {
+			continue
+		}
+		forEachInstr(f, func(ins ssa.Instruction) {
+			call, ok := ins.(ssa.CallInstruction)
+			if !ok {
+				return
+			}
+			cal := call.Common().StaticCallee()
+			if cal != tsm && cal != usm {
+				return
+			}
+			nSetters++
+			if isNilConst(call.Common().Args[1]) {
+				r.ok(fmt.Sprintf("(g) %s clears a metatable (nothing to mark)", fnKey(f)))
+				return
+			}
+			if why, ok := rawMetaSetters[fnKey(f)]; ok {
+				r.ok("table: " + fnKey(f) + " — " + why)
+				return
+			}
+			r.fail("metatable-set-without-mark:"+fnKey(f), p.InstrPos(ins), fmt.Sprintf("%s gives a value a metatable directly, not through (*Runtime).SetRawMetatable: a __gc metamethod or a resource releaser attached this way is never registered with the finaliser pool", fnKey(f)))
+		})
+	}
+	// SetRawMetatable itself: both setter calls are followed by addFinalizer on every path
+	for _, setter := range []*ssa.Function{tsm, usm} {
+		forEachInstr(srm, func(ins ssa.Instruction) {
+			call, ok := ins.(*ssa.Call)
+			if !ok || call.Call.StaticCallee() != setter {
+				return
+			}
+			// every path from here to a return passes addFinalizer, except on the edge
+			// that found no __gc field (tables)
+			reaches := false
+			seen := map[*ssa.BasicBlock]bool{}
+			var walk func(b *ssa.BasicBlock, from int)
+			walk = func(b *ssa.BasicBlock, from int) {
+				for i := from; i < len(b.Instrs); i++ {
+					if c2, ok := b.Instrs[i].(*ssa.Call); ok && c2.Call.StaticCallee() == addFin {
+						return
+					}
+					if _, ok := b.Instrs[i].(*ssa.Return); ok {
+						reaches = true
+						return
+					}
+					if iff, ok := b.Instrs[i].(*ssa.If); ok {
+						// the "no __gc field" edge is the one exemption
+						if c3, ok := iff.Cond.(*ssa.Call); ok && c3.Call.StaticCallee() != nil && c3.Call.StaticCallee().Name() == "IsNil" {
+							if !seen[b.Succs[1]] {
+								seen[b.Succs[1]] = true
+								walk(b.Succs[1], 0)
+							}
+							return
+						}
+					}
+				}
+				for _, s := range b.Succs {
+					if !seen[s] {
+						seen[s] = true
+						walk(s, 0)
+					}
+				}
+			}
+			walk(ins.Block(), instrIndex(ins)+1)
+			if reaches {
+				r.fail("setrawmetatable-mark-skipped:"+setter.Name()+":"+typeKey(setter.Signature.Recv().Type()), p.InstrPos(ins), "(*Runtime).SetRawMetatable can return after setting the metatable without calling addFinalizer (other than when the metatable has no __gc field)")
+			} else {
+				r.ok("(g) SetRawMetatable marks after " + typeKey(setter.Signature.Recv().Type()) + ".SetMetatable on every path")
+			}
+		})
+	}
+	// the Lua-callable setters: no successful return without SetRawMetatable or a clearing call
+	for _, fn := range [][2]string{{"lib/base", "setmetatable"}, {"lib/debuglib", "setmetatable"}} {
+		f := p.Func(fn[0], fn[1])
+		if f == nil {
+			r.broken("anchor unresolved: %s.%s", fn[0], fn[1])
+			continue
+		}
+		sets := map[*ssa.BasicBlock]bool{}
+		forEachInstr(f, func(ins ssa.Instruction) {
+			if call, ok := ins.(*ssa.Call); ok {
+				switch call.Call.StaticCallee() {
+				case srm, tsm, usm:
+					sets[ins.Block()] = true
+				}
+			}
+		})
+		seen := map[*ssa.BasicBlock]bool{f.Blocks[0]: true}
+		q := []*ssa.BasicBlock{f.Blocks[0]}
+		var bad ssa.Instruction
+		if sets[f.Blocks[0]] {
+			q = nil
+		}
+		for len(q) > 0 && bad == nil {
+			b := q[0]
+			q = q[1:]
+			if ret, ok := b.Instrs[len(b.Instrs)-1].(*ssa.Return); ok && len(ret.Results) == 2 && isNilConst(ret.Results[1]) {
+				bad = ret
+				break
+			}
+			for _, s := range b.Succs {
+				if !seen[s] && !sets[s] {
+					seen[s] = true
+					q = append(q, s)
+				}
+			}
+		}
+		if bad != nil {
+			r.fail("setmetatable-returns-without-setting:"+fn[0]+"."+fn[1], p.InstrPos(bad), fmt.Sprintf("%s.%s can return successfully without calling SetRawMetatable (or clearing the metatable): the value is not (re-)marked, so its place in the finalisation order and its re-arming after a finaliser ran are lost", fn[0], fn[1]))
+		} else {
+			r.ok(fmt.Sprintf("(g) %s.%s: every successful return is behind SetRawMetatable or a clearing call", fn[0], fn[1]))
+		}
+	}
+	r.count("direct_metatable_setter_calls_outside_SetRawMetatable", nSetters)
+	// userdata born with a metatable: only through NewUserDataValue, which marks
+	nud := p.Func("runtime", "NewUserData")
+	nudv := p.Func("runtime", "(*Runtime).NewUserDataValue")
+	if nud == nil || nudv == nil {
+		r.broken("anchor unresolved: runtime.NewUserData / (*Runtime).NewUserDataValue")
+		return r
+	}
+	marks := false
+	forEachInstr(nudv, func(ins ssa.Instruction) {
+		if call, ok := ins.(*ssa.Call); ok && call.Call.StaticCallee() == addFin {
+			marks = true
+			// straight-line function: the mark is in the entry block, before the return
+			if ins.Block() != nudv.Blocks[0] {
+				marks = false
+			}
+		}
+	})
+	if marks {
+		r.ok("(g) NewUserDataValue marks the userdata it creates")
+	} else {
+		r.fail("newuserdatavalue-does-not-mark", p.Pos(nudv.Pos()), "(*Runtime).NewUserDataValue no longer registers the new userdata with the finaliser pool unconditionally: files and other resources created by the libraries are never released at context close")
+	}
+	for _, f := range p.ModFuncs() {
+		if !luaReachablePkg(relPkg(funcPkgPath(f))) || f == nudv {
+			continue
+		}
+		forEachInstr(f, func(ins ssa.Instruction) {
+			if call, ok := ins.(ssa.CallInstruction); ok && call.Common().StaticCallee() == nud {
+				if isNilConst(call.Common().Args[1]) {
+					return
+				}
+				r.fail("userdata-created-unmarked:"+fnKey(f), p.InstrPos(ins), fmt.Sprintf("%s creates a userdata with a metatable through NewUserData instead of (*Runtime).NewUserDataValue: it is never marked, so its __gc and its resource release never run", fnKey(f)))
+			}
+		})
+	}
 	return r
 }
+
+// rawMetaSetters: functions allowed to call (*Table)/(*UserData).SetMetatable with a non-nil metatable themselves.
+var rawMetaSetters = map[string]string{}
